@@ -197,7 +197,10 @@ def _enumerate_quick(shard):
             else:
                 yield {"designs": [_dspec(vn, vv)], "ops": [["a", 0, vt]]}
             for j, first in _enumerate(firsts):
-                if (j + k) % QUICK_STRIDE["vxv"] == 1:
+                if first[0] == vn and first[2] != vt:
+                    # another top of the victim's module (shared helper / sub-entity classes): always, same module object
+                    yield _pair((vn, vv, first[2]), victim)
+                elif (j + k) % QUICK_STRIDE["vxv"] == 1:
                     case = _pair(first, victim)
                     if case:
                         yield case
